@@ -82,3 +82,17 @@ Qed.
 
 Lemma lor_disjoint_add' a b p n : p = 2 ^ n -> a < p -> N.lor a (b * p) = a + b * p.
 Proof. intros -> H. apply lor_disjoint_add, H. Qed.
+
+Lemma drop_app_len (a b : bytes) n : len a = n -> drop n (a ++ b) = b.
+Proof.
+  intros <-. unfold drop, len. rewrite Nat2N.id. rewrite skipn_app, skipn_all, Nat.sub_diag. reflexivity.
+Qed.
+Lemma take_app_len (a b : bytes) n : len a = n -> take n (a ++ b) = a.
+Proof.
+  intros <-. unfold take, len. rewrite Nat2N.id. rewrite firstn_app, firstn_all, Nat.sub_diag. cbn. apply app_nil_r.
+Qed.
+Lemma len_repeat (x : N) n : len (repeat x n) = N.of_nat n.
+Proof. unfold len. rewrite repeat_length. reflexivity. Qed.
+Lemma len_concat_map {A} (f : A -> bytes) (l : list A) :
+  len (concat (map f l)) = fold_right (fun x s => len (f x) + s) 0 l.
+Proof. induction l as [|x l IH]; cbn [map concat fold_right]; [reflexivity|]. rewrite len_app, IH. reflexivity. Qed.
